@@ -195,16 +195,20 @@ type ocraView struct {
 
 type acct struct {
 	Account
-	idx        int
-	stored     string // secret as the verifier stores it
-	tokSecret  string // secret as the token stores it (always intact)
-	tokCounter uint64
-	tokDurable uint64
-	pressCount int
-	verCounter uint64
-	tokJumpNs  int64
-	tokJumpS   int64
-	sent       []message
+	idx          int
+	stored       string // secret as the verifier stores it
+	tokSecret    string // secret as the token stores it (always intact)
+	tokCounter   uint64
+	tokDurable   uint64
+	pressCount   int
+	verCounter   uint64
+	verPrev      uint64 // counter the verifier used for its latest answer (what a restart without the stored update comes back to)
+	verPrevSet   bool
+	lastDeliv    message // latest submission the verifier answered
+	lastDelivSet bool
+	tokJumpNs    int64
+	tokJumpS     int64
+	sent         []message
 	// ocra
 	suite      otp.Suite
 	suiteErr   error
@@ -733,6 +737,8 @@ func (s *sim) hotpPress(a *acct, e *Event) {
 
 func (s *sim) hotpDeliver(a *acct, m message) {
 	c := a.verCounter
+	a.verPrev, a.verPrevSet = c, true
+	a.lastDeliv, a.lastDelivSet = m, true
 	digits, algo, skew, _ := a.verEff()
 	var ok bool
 	var err error
@@ -1082,6 +1088,7 @@ func (s *sim) totpPress(a *acct, e *Event) {
 }
 
 func (s *sim) totpDeliver(a *acct, m message) {
+	a.lastDeliv, a.lastDelivSet = m, true
 	vc := s.verClock()
 	if vc.Sec < 0 || vc.Sec >= maxSec {
 		verifh.Count("skip.verifier-clock-out-of-domain", 1)
@@ -1863,6 +1870,44 @@ func (s *sim) stimulus(e *Event) {
 	case "display":
 		if a.Kind == "totp" {
 			s.totpDisplay(a, e)
+		}
+	case "reconfig":
+		if a.Kind != "hotp" && a.Kind != "totp" {
+			return
+		}
+		if !a.NilParam {
+			old := a.Skew
+			a.Skew = uint64(e.N)
+			verifh.Count("fault.verifier-window-reconfigured", 1)
+			switch {
+			case a.Skew < old:
+				verifh.Count("fault.verifier-window-narrowed", 1)
+			case a.Skew > old:
+				verifh.Count("fault.verifier-window-widened", 1)
+			}
+			if a.Skew > 10 {
+				verifh.Count("fault.verifier-skew>10", 1)
+			}
+		}
+		if a.Kind == "hotp" && e.Who == 1 && a.verPrevSet && a.verCounter != a.verPrev {
+			// the verifier died after answering and before the advanced counter
+			// reached its store: only the durable counter survives the restart
+			verifh.Count("fault.verifier-crash-restart(counter update lost)", 1)
+			a.verCounter = a.verPrev
+		}
+		s.logf("reconfig acct=%d skew=%d verCounter=%d retry=%v", a.idx, a.Skew, a.verCounter, e.Aimed)
+		if e.Aimed && a.lastDelivSet {
+			// the owner submits the same code again at once
+			verifh.Count("fault.resubmission-after-reconfiguration", 1)
+			m := a.lastDeliv
+			if a.Kind == "hotp" {
+				if a.verPrevSet && a.verCounter == a.verPrev {
+					verifh.Count("probe.same-validation-call-with-another-window", 1)
+				}
+				s.hotpDeliver(a, m)
+			} else {
+				s.totpDeliver(a, m)
+			}
 		}
 	case "replay":
 		if len(a.sent) > 0 {
